@@ -90,7 +90,70 @@ def gen(ctx):
     return items
 
 
+def biglist_cases(ctx):
+    """Lists whose request lines add up to kilobytes .. several megabytes (MPD's own limit on a list is the server's business: the
+    client sends what it was given as ONE batch)."""
+    cases = []
+    for how in ("add", "command", "extend"):
+        cases += [f"cmd_biglist {how} 2 10", f"cmd_biglist {how} 1000 20", f"cmd_biglist {how} 40 65536", f"cmd_biglist {how} 2200 1000",
+                  f"cmd_biglist {how} 2049 1024", f"cmd_biglist {how} 3 1048576", f"cmd_biglist {how} 70000 8"]
+    if ctx.tier == "thorough":
+        cases += [f"cmd_biglist extend 20000 1000", f"cmd_biglist add 9 4194304"]
+    return cases
+
+
+def judge_biglist(case, out):
+    _, how, n, size = case.split(" ")
+    n = int(n)
+    f = dict(x.split("=") for x in out.split(" ") if "=" in x)
+    if "WIRE-DIFFERS" in out or not f:
+        return f"a list of {n} commands ({size}-byte arguments, built with {how}): {out[:300]}"
+    want = {"len": str(n), "begins": "1", "ends": "1", "commands": str(n), "in_order": "1", "last_is_end": "1"}
+    bad = {k: (f.get(k), v) for k, v in want.items() if f.get(k) != v}
+    if bad:
+        return (f"a list of {n} commands ({size}-byte arguments, built with {how}, {f.get('bytes')} bytes on the wire) was not sent as one batch: "
+                + ", ".join(f"{k}={a} (must be {b})" for k, (a, b) in bad.items()))
+    return None
+
+
+def interrupted_list_cases(ctx):
+    """The reply to a list, at the protocol layer, with the receive interrupted (a read that would block; an async receive dropped
+    while it waits) after every line — in particular right after a list_OK: the frames already complete belong to the reply."""
+    import mpdgen as g
+    rng = ctx.rng
+    cases = []
+    replies = [b"a: 1\nlist_OK\nb: 2\nlist_OK\nc: 3\nlist_OK\nOK\n", b"list_OK\nlist_OK\nx: y\nlist_OK\nOK\n",
+               b"updating_db: 1\nlist_OK\nbinary: 3\nabc\nlist_OK\nupdating_db: 2\nlist_OK\nOK\n", b"a: 1\nlist_OK\nACK [5@1] {x} boom\n",
+               b"list_OK\nOK\n"]
+    for rp in replies:
+        st = rp + b"volume: 5\nOK\n"
+        cuts = [i + 1 for i, c in enumerate(st) if c == 10] + [len(b"a: 1\nlis"), 3]
+        for k in sorted(set(c for c in cuts if 0 < c < len(st))):
+            for fl in "ab":
+                cases.append(" ".join(["recv", fl, "0", "eof", hexs(st[:k]), "!", hexs(st[k:])]))
+                j = rng.randrange(1, k + 1)
+                cases.append(" ".join(["recv", fl, "0", "eof", hexs(st[:j]), hexs(st[j:k]), "!", hexs(st[k:])] if j < k else ["recv", fl, "0", "eof", hexs(st[:k]), "!", "!", hexs(st[k:])]))
+    return cases
+
+
 def run(ctx, only=None):
+    if only is not None and only and isinstance(only[0], str):
+        import connlib
+        big = [c for c in only if c.startswith("cmd_biglist")]
+        rest = [c for c in only if not c.startswith("cmd_biglist")]
+        bad = 0
+        for c, o in zip(big, ctx.run_impl(big)):
+            print("case:", c, "\nimpl:", o)
+            if judge_biglist(c, o):
+                bad += 1
+                print("VIOLATION property=C13 replay=(this case)", judge_biglist(c, o))
+        if rest:
+            impl, model, dis = connlib.run_cases(ctx, rest)
+            connlib.print_replay(rest, impl, model, [])
+            for d in dis:
+                bad += 1
+                print("VIOLATION property=C13 replay=(this case) the interrupted reply decodes differently:", d["case"][:200])
+        return 1 if bad else 0
     items = only if only is not None else gen(ctx)
     scheds = [s for s, _ in items]
     results = L.run_schedules(ctx, scheds)
@@ -126,18 +189,38 @@ def run(ctx, only=None):
     if only is not None:
         for r in results:
             print("labels:", " ".join(r["sched"].labels)[:1500], "\nimpl  :", r["impl_raw"][:2500], "\nmodel :", " ".join(r["model_segs"])[:2500])
+    extra_n = 0
+    if only is None:
+        import connlib
+        big = biglist_cases(ctx)
+        for c, o in zip(big, ctx.run_impl(big)):
+            m = judge_biglist(c, o)
+            if m:
+                fails.append(Failure(c, m, extra={"plain": True}))
+        inter = interrupted_list_cases(ctx)
+        impl_i, model_i, dis_i = connlib.run_cases(ctx, inter)
+        dis += dis_i
+        for c, o in zip(inter, impl_i):
+            outs = [x for x in o.split(" | ") if x != "io"]
+            if len(outs) < 2 or not outs[1].startswith("resp[(766f6c756d65:35)"):
+                fails.append(Failure(c, f"the reply to a list, its receive interrupted: {connlib.describe(c)[:300]}\n  the response after it must be the one the server sent next (volume: 5); got {o[:400]}", extra={"plain": True}))
+        extra_n = len(big) + len(inter)
     return finish(
-        ctx, evaluations=len(scheds), distinct_nontrivial=nontrivial,
+        ctx, evaluations=len(scheds) + extra_n, distinct_nontrivial=nontrivial + extra_n,
         rule="Client::command_list on Vec lists of every length 0..20 and tuple lists of every arity 1..8 (monomorphic instantiations in the harness) of "
              "update/rescan/stop commands whose replies carry the command's own number, interleaved with notifications, partial deliveries and the "
              "re-idle timer; oracle: the i-th typed value is the number of the i-th command, the wire shows exactly one command_list_ok_begin..end "
-             "block per list of >= 2 commands, the bare command for 1, nothing for the empty list (result ok[]); non-trivial = a list of >= 2 commands",
+             "block per list of >= 2 commands, the bare command for 1, nothing for the empty list (result ok[]); lists of 2..70000 commands with "
+             "8-byte..1-MiB arguments (up to 4 MiB of request lines in the quick tier) through add/command/extend: one begin, one end, every command "
+             "in order; list replies at the protocol layer with the receive interrupted / its future dropped after every line; non-trivial = a list of >= 2 commands",
         samples=[" ".join(scheds[0].labels)[:300]], distribution={"schedules": len(scheds), "list_sizes": {str(k): v for k, v in sorted(sizes.items())}},
         oracle_failures=fails, disagreements=dis,
     )
 
 
 def replay(ctx, payload):
+    if payload.get("extra", {}).get("plain") or any(c.split(" ")[0] in ("recv", "cmd_biglist") for c in payload.get("cases", [])):
+        return run(ctx, only=list(payload.get("cases", [])))
     items = []
     inf = payload.get("extra", {}).get("info")
     for c in payload.get("cases", []):
